@@ -126,10 +126,23 @@ impl Entry {
 
 #[derive(Clone, Debug)]
 pub struct Item {
-    pub col: i64, // CSS line number (1-based, negative counts from the end of the explicit grid), span 1
+    /// 0: leaf of fixed size `w` x `h` (bits); 1: "text" leaf without a size style, measured by `Ctx::Text(w, f32::from_bits(h))`:
+    /// `w` glyphs of size `h`, min-content width = h, max-content width = w * h
+    pub kind: u64,
+    pub col: i64, // CSS line number (1-based, negative counts from the end of the explicit grid)
+    pub cspan: i64,
     pub row: i64,
+    pub rspan: i64,
     pub w: u32,
     pub h: u32,
+    pub margin: [u32; 4], // left right top bottom (lengths)
+    pub ov: [u64; 2],     // overflow x / y: 0 visible, 1 hidden (a scroll container)
+}
+
+impl Item {
+    pub fn plain(col: i64, row: i64, w: u32, h: u32) -> Item {
+        Item { kind: 0, col, cspan: 1, row, rspan: 1, w, h, margin: [0; 4], ov: [0; 2] }
+    }
 }
 
 /// (kind 0 length | 1 percent, bits)
@@ -137,8 +150,13 @@ type Lp = (u64, u32);
 
 #[derive(Clone, Debug)]
 pub struct Case {
+    /// 0: the container's size on that axis is the length `w` / `h`; 1: auto
+    pub wk: u64,
     pub w: u32,
+    pub hk: u64,
     pub h: u32,
+    /// available space handed to compute_layout per axis: (0 max-content | 1 min-content | 2 definite, bits)
+    pub avail: [(u64, u32); 2],
     pub pad: [u32; 4], // left right top bottom (lengths)
     pub bor: [u32; 4],
     pub gap: [Lp; 2], // width (column gap), height (row gap)
@@ -230,6 +248,41 @@ impl Rd<'_> {
 
 impl Case {
     pub fn encode(&self) -> Vec<i64> {
+        let mut v: Vec<i64> = vec![self.wk as i64, self.w as i64, self.hk as i64, self.h as i64];
+        for a in self.avail {
+            v.extend([a.0 as i64, a.1 as i64]);
+        }
+        v.extend(self.pad.iter().map(|x| *x as i64));
+        v.extend(self.bor.iter().map(|x| *x as i64));
+        for g in self.gap {
+            v.extend([g.0 as i64, g.1 as i64]);
+        }
+        v.extend([self.jc as i64, self.ac as i64]);
+        push_template(&mut v, &self.cols);
+        push_template(&mut v, &self.rows);
+        push_autos(&mut v, &self.auto_cols);
+        push_autos(&mut v, &self.auto_rows);
+        v.push(self.items.len() as i64);
+        for it in &self.items {
+            v.extend([it.kind as i64, it.col, it.cspan, it.row, it.rspan, it.w as i64, it.h as i64]);
+            v.extend(it.margin.iter().map(|x| *x as i64));
+            v.extend(it.ov.iter().map(|x| *x as i64));
+        }
+        v
+    }
+    /// The stage-1 class (GridTracksRun.run_case): definite container, max-content available space, span-1 items without
+    /// margins and with visible overflow, no min-/max-/fit-content track.  Returns the stage-1 encoding.
+    pub fn encode_old(&self) -> Option<Vec<i64>> {
+        let old_tr = |t: &Tr| matches!(t.min.0, 0 | 1 | 5) && matches!(t.max.0, 0 | 1 | 2 | 5);
+        let ok = self.wk == 0
+            && self.hk == 0
+            && self.avail == [(0, 0), (0, 0)]
+            && self.items.iter().all(|i| i.kind == 0 && i.cspan == 1 && i.rspan == 1 && i.margin == [0; 4] && i.ov == [0; 2])
+            && self.cols.iter().chain(self.rows.iter()).all(|e| e.tracks.iter().all(old_tr))
+            && self.auto_cols.iter().chain(self.auto_rows.iter()).all(old_tr);
+        if !ok {
+            return None;
+        }
         let mut v: Vec<i64> = vec![self.w as i64, self.h as i64];
         v.extend(self.pad.iter().map(|x| *x as i64));
         v.extend(self.bor.iter().map(|x| *x as i64));
@@ -245,12 +298,15 @@ impl Case {
         for it in &self.items {
             v.extend([it.col, it.row, it.w as i64, it.h as i64]);
         }
-        v
+        Some(v)
     }
     pub fn decode(xs: &[i64]) -> Case {
         let mut r = Rd(xs, 0);
+        let wk = r.u();
         let w = r.b();
+        let hk = r.u();
         let h = r.b();
+        let avail = [(r.u(), r.b()), (r.u(), r.b())];
         let pad = [r.b(), r.b(), r.b(), r.b()];
         let bor = [r.b(), r.b(), r.b(), r.b()];
         let gap = [(r.u(), r.b()), (r.u(), r.b())];
@@ -261,9 +317,30 @@ impl Case {
         let auto_cols = r.autos();
         let auto_rows = r.autos();
         let n = r.u();
-        let items = (0..n).map(|_| Item { col: r.i(), row: r.i(), w: r.b(), h: r.b() }).collect();
+        let items = (0..n)
+            .map(|_| Item {
+                kind: r.u(),
+                col: r.i(),
+                cspan: r.i(),
+                row: r.i(),
+                rspan: r.i(),
+                w: r.b(),
+                h: r.b(),
+                margin: [r.b(), r.b(), r.b(), r.b()],
+                ov: [r.u(), r.u()],
+            })
+            .collect();
         assert_eq!(r.1, xs.len(), "trailing ints");
-        Case { w, h, pad, bor, gap, jc, ac, cols, rows, auto_cols, auto_rows, items }
+        Case { wk, w, hk, h, avail, pad, bor, gap, jc, ac, cols, rows, auto_cols, auto_rows, items }
+    }
+
+    pub fn avail(&self) -> Size<AvailableSpace> {
+        let a = |k: (u64, u32)| match k.0 {
+            0 => AvailableSpace::MaxContent,
+            1 => AvailableSpace::MinContent,
+            _ => AvailableSpace::Definite(f32::from_bits(k.1)),
+        };
+        Size { width: a(self.avail[0]), height: a(self.avail[1]) }
     }
 
     pub fn spec(&self) -> NodeSpec {
@@ -271,7 +348,10 @@ impl Case {
         let l = |b: u32| LengthPercentage::length(f(b));
         let style = Style {
             display: Display::Grid,
-            size: Size { width: Dimension::length(f(self.w)), height: Dimension::length(f(self.h)) },
+            size: Size {
+                width: if self.wk == 0 { Dimension::length(f(self.w)) } else { Dimension::auto() },
+                height: if self.hk == 0 { Dimension::length(f(self.h)) } else { Dimension::auto() },
+            },
             padding: Rect { left: l(self.pad[0]), right: l(self.pad[1]), top: l(self.pad[2]), bottom: l(self.pad[3]) },
             border: Rect { left: l(self.bor[0]), right: l(self.bor[1]), top: l(self.bor[2]), bottom: l(self.bor[3]) },
             gap: Size { width: lp_build(self.gap[0]), height: lp_build(self.gap[1]) },
@@ -287,12 +367,21 @@ impl Case {
             .items
             .iter()
             .map(|it| {
-                NodeSpec::leaf(Style {
-                    size: Size { width: Dimension::length(f(it.w)), height: Dimension::length(f(it.h)) },
-                    grid_column: Line { start: GridPlacement::from_line_index(it.col as i16), end: GridPlacement::Auto },
-                    grid_row: Line { start: GridPlacement::from_line_index(it.row as i16), end: GridPlacement::Auto },
+                let end = |span: i64| if span == 1 { GridPlacement::Auto } else { GridPlacement::from_span(span as u16) };
+                let ov = |o: u64| if o == 0 { taffy::Overflow::Visible } else { taffy::Overflow::Hidden };
+                let m = |b: u32| LengthPercentageAuto::length(f(b));
+                let mut node = NodeSpec::leaf(Style {
+                    size: if it.kind == 0 { Size { width: Dimension::length(f(it.w)), height: Dimension::length(f(it.h)) } } else { Size::auto() },
+                    margin: Rect { left: m(it.margin[0]), right: m(it.margin[1]), top: m(it.margin[2]), bottom: m(it.margin[3]) },
+                    overflow: taffy::Point { x: ov(it.ov[0]), y: ov(it.ov[1]) },
+                    grid_column: Line { start: GridPlacement::from_line_index(it.col as i16), end: end(it.cspan) },
+                    grid_row: Line { start: GridPlacement::from_line_index(it.row as i16), end: end(it.rspan) },
                     ..Default::default()
-                })
+                });
+                if it.kind == 1 {
+                    node.ctx = Some(Ctx::Text(it.w, f(it.h)));
+                }
+                node
             })
             .collect();
         NodeSpec { style, ctx: None, children }
@@ -333,7 +422,7 @@ pub fn run_spec(spec: &NodeSpec, avail: Size<AvailableSpace>) -> Option<Run> {
 }
 
 fn result_line(c: &Case) -> Vec<i64> {
-    let r = run_spec(&c.spec(), Size::MAX_CONTENT).expect("grid info");
+    let r = run_spec(&c.spec(), c.avail()).expect("grid info");
     let mut v = vec![];
     push_axis(&mut v, &r.info.columns);
     push_axis(&mut v, &r.info.rows);
@@ -351,6 +440,10 @@ fn print_case(c: &Case) {
     println!("C {}", j(c.encode()));
     std::io::stdout().flush().unwrap();
     println!("R {}", j(result_line(c)));
+    // the same case in the stage-1 encoding when it belongs to the stage-1 class (evaluated by GridTracksRun.run_case too)
+    if let Some(o) = c.encode_old() {
+        println!("O {}", j(o));
+    }
 }
 
 // ------------------------------------------------------------------------------------------------ K generator
@@ -486,9 +579,155 @@ pub fn gen_k(rng: &mut Rng) -> Case {
         }
     };
     let items = (0..n)
-        .map(|_| Item { col: line(rng, &cols), row: line(rng, &rows), w: b(k_len(rng, 120)), h: b(k_len(rng, 80)) })
+        .map(|_| Item::plain(line(rng, &cols), line(rng, &rows), b(k_len(rng, 120)), b(k_len(rng, 80))))
         .collect();
-    Case { w: b(w), h: b(h), pad, bor, gap, jc, ac, cols, rows, auto_cols, auto_rows, items }
+    Case { wk: 0, w: b(w), hk: 0, h: b(h), avail: [(0, 0), (0, 0)], pad, bor, gap, jc, ac, cols, rows, auto_cols, auto_rows, items }
+}
+
+
+// ------------------------------------------------------------------------------------------------ K generator, stage 2
+/// Stage-2 class of track sizing functions: everything of `k_track` plus the intrinsic keywords
+/// auto | min-content | max-content | fit-content(px | %) | minmax(px | % | auto | min-content | max-content, any max)
+fn k_track2(rng: &mut Rng) -> Tr {
+    let min_kw = |rng: &mut Rng| Sf(*rng.pick(&[5u64, 5, 6, 7]), 0);
+    match rng.below(12) {
+        0 | 1 | 2 => k_track(rng),
+        3 => Tr { min: Sf(5, 0), max: Sf(5, 0) },
+        4 => Tr { min: Sf(6, 0), max: Sf(6, 0) },
+        5 => Tr { min: Sf(7, 0), max: Sf(7, 0) },
+        6 => Tr { min: Sf(5, 0), max: if rng.chance(1, 4) { Sf(4, b(k_pct(rng))) } else { Sf(3, b(k_len(rng, 90))) } },
+        7 => {
+            // intrinsic minimum under a fixed maximum: the growth limit is finite from the start
+            Tr { min: min_kw(rng), max: k_fixed(rng) }
+        }
+        8 => {
+            // fixed minimum, intrinsic maximum
+            let max = match rng.below(4) {
+                0 => Sf(5, 0),
+                1 => Sf(6, 0),
+                2 => Sf(7, 0),
+                _ => Sf(3, b(k_len(rng, 90))),
+            };
+            Tr { min: k_fixed(rng), max }
+        }
+        9 => Tr { min: min_kw(rng), max: Sf(2, b(k_fr(rng))) },
+        10 => {
+            let max = match rng.below(5) {
+                0 => Sf(5, 0),
+                1 => Sf(6, 0),
+                2 => Sf(7, 0),
+                3 => Sf(3, b(k_len(rng, 90))),
+                _ => Sf(4, b(k_pct(rng))),
+            };
+            Tr { min: min_kw(rng), max }
+        }
+        _ => {
+            // nearly equal limits next to intrinsic tracks: the THRESHOLD region of the beyond-limits distribution
+            let lo = k_len(rng, 60);
+            let hi = lo + *rng.pick(&[0.004, 0.008, 0.009, 0.0125, 0.02, 1.0]);
+            Tr { min: Sf(0, b(lo)), max: Sf(0, b(hi)) }
+        }
+    }
+}
+
+fn k_template2(rng: &mut Rng) -> Vec<Entry> {
+    if rng.chance(1, 6) {
+        return k_template(rng);
+    }
+    let n = 1 + rng.below(4);
+    (0..n)
+        .map(|_| {
+            if rng.chance(1, 6) {
+                let cnt = 1 + rng.below(2);
+                Entry { kind: 1, count: 1 + rng.below(2), tracks: (0..cnt).map(|_| k_track2(rng)).collect() }
+            } else {
+                Entry { kind: 0, count: 0, tracks: vec![k_track2(rng)] }
+            }
+        })
+        .collect()
+}
+
+/// Stage-2 K class: `gen_k` extended by intrinsic track sizing functions, items spanning 1-3 tracks, length margins and
+/// overflow hidden on the items.
+pub fn gen_k2(rng: &mut Rng) -> Case {
+    let mut c = gen_k(rng);
+    c.cols = k_template2(rng);
+    c.rows = k_template2(rng);
+    let autos = |rng: &mut Rng| if rng.chance(1, 3) { (0..1 + rng.below(2)).map(|_| k_track2(rng)).collect() } else { vec![] };
+    c.auto_cols = autos(rng);
+    c.auto_rows = autos(rng);
+    let n = 1 + rng.below(5);
+    let place = |rng: &mut Rng, t: &[Entry]| -> (i64, i64) {
+        let e = non_auto_count(t) + if t.iter().any(|e| e.kind >= 2) { 2 } else { 0 };
+        let span = *rng.pick(&[1i64, 1, 1, 2, 2, 3]);
+        let line = if rng.chance(1, 8) { -(1 + rng.below(e as u64 + 2) as i64) } else { 1 + rng.below(e as u64 + 1) as i64 };
+        (line, span)
+    };
+    c.items = (0..n)
+        .map(|_| {
+            let (col, cspan) = place(rng, &c.cols);
+            let (row, rspan) = place(rng, &c.rows);
+            let big = rng.chance(1, 3);
+            let w = k_len(rng, if big { 260 } else { 120 });
+            let h = k_len(rng, if big { 200 } else { 80 });
+            let mut margin = [0u32; 4];
+            if rng.chance(1, 3) {
+                for m in margin.iter_mut() {
+                    if rng.chance(1, 2) {
+                        *m = b(k_len(rng, 12));
+                    }
+                }
+            }
+            let ov = [rng.chance(1, 5) as u64, rng.chance(1, 5) as u64];
+            Item { kind: 0, col, cspan, row, rspan, w: b(w), h: b(h), margin, ov }
+        })
+        .collect();
+    // indefinite container axes: sized under a max-content / min-content constraint or a definite available space
+    if rng.chance(2, 5) {
+        let av = |rng: &mut Rng, max: u64| match rng.below(4) {
+            0 => (1u64, 0u32),
+            1 => (2, b(20.0 + k_len(rng, max))),
+            _ => (0, 0),
+        };
+        match rng.below(3) {
+            0 => c.wk = 1,
+            1 => c.hk = 1,
+            _ => {
+                c.wk = 1;
+                c.hk = 1;
+            }
+        }
+        c.avail = [av(rng, 400), av(rng, 300)];
+    }
+    c
+}
+
+/// Stage-2 K class with items whose min-content and max-content widths differ: `gen_k2` with a definite container height,
+/// rigid rows only (px / minmax(px, px); every item inside the explicit rows: row sizing never looks at a contribution) and
+/// about half of the items "text" leaves (`Ctx::Text(n, unit)`, no size style): min-content width = unit, max-content
+/// width = n * unit, minimum contribution = the automatic minimum size.
+pub fn gen_k3(rng: &mut Rng) -> Case {
+    let mut c = gen_k2(rng);
+    c.hk = 0;
+    let nrows = 1 + rng.below(3);
+    c.rows = (0..nrows)
+        .map(|_| {
+            let lo = k_len(rng, 60);
+            let t = if rng.chance(1, 3) { Tr { min: Sf(0, b(lo)), max: Sf(0, b(lo + k_len(rng, 30))) } } else { px(lo) };
+            single(t)
+        })
+        .collect();
+    c.auto_rows = vec![];
+    for it in c.items.iter_mut() {
+        it.rspan = 1 + rng.below(nrows.min(2)) as i64;
+        it.row = 1 + rng.below(nrows - it.rspan as u64 + 1) as i64;
+        if rng.chance(1, 2) {
+            it.kind = 1;
+            it.w = 2 + rng.below(12) as u32;
+            it.h = b(*rng.pick(&[4.0f32, 7.5, 10.0, 12.0, 16.0, 3.3]));
+        }
+    }
+    c
 }
 
 fn px(v: f32) -> Tr {
@@ -498,13 +737,13 @@ fn single(t: Tr) -> Entry {
     Entry { kind: 0, count: 0, tracks: vec![t] }
 }
 fn plain(w: f32, h: f32, cols: Vec<Entry>, rows: Vec<Entry>, items: Vec<Item>) -> Case {
-    Case { w: b(w), h: b(h), pad: [0; 4], bor: [0; 4], gap: [(0, 0), (0, 0)], jc: 0, ac: 0, cols, rows, auto_cols: vec![], auto_rows: vec![], items }
+    Case { wk: 0, w: b(w), hk: 0, h: b(h), avail: [(0, 0), (0, 0)], pad: [0; 4], bor: [0; 4], gap: [(0, 0), (0, 0)], jc: 0, ac: 0, cols, rows, auto_cols: vec![], auto_rows: vec![], items }
 }
 
 /// Witness (a): `0.5fr 0.6fr` columns in a 200px grid, an item of width 100 in the first column.
 pub fn witness_a() -> Case {
     let fr = |v: f32| single(Tr { min: Sf(5, 0), max: Sf(2, b(v)) });
-    plain(200.0, 50.0, vec![fr(0.5), fr(0.6)], vec![single(px(50.0))], vec![Item { col: 1, row: 1, w: b(100.0), h: b(10.0) }])
+    plain(200.0, 50.0, vec![fr(0.5), fr(0.6)], vec![single(px(50.0))], vec![Item::plain(1, 1, b(100.0), b(10.0))])
 }
 /// Witness (b): `100px minmax(100px, 100.008px)` columns in a 200.016px grid, gap 0.
 pub fn witness_b() -> Case {
@@ -513,25 +752,46 @@ pub fn witness_b() -> Case {
         50.0,
         vec![single(px(100.0)), single(Tr { min: Sf(0, b(100.0)), max: Sf(0, b(100.008)) })],
         vec![single(px(50.0))],
-        vec![Item { col: 1, row: 1, w: 0, h: 0 }],
+        vec![Item::plain(1, 1, 0, 0)],
     )
 }
 /// Witness (b2): two growable tracks with different head-room: the fixed track is raised twice (deviation > THRESHOLD).
 pub fn witness_b2() -> Case {
     let mm = |hi: f32| single(Tr { min: Sf(0, b(100.0)), max: Sf(0, b(hi)) });
-    plain(400.0, 50.0, vec![single(px(100.0)), mm(100.008), mm(100.009)], vec![single(px(50.0))], vec![Item { col: 1, row: 1, w: 0, h: 0 }])
+    plain(400.0, 50.0, vec![single(px(100.0)), mm(100.008), mm(100.009)], vec![single(px(50.0))], vec![Item::plain(1, 1, 0, 0)])
 }
 /// Further defect: `minmax(0,10px) minmax(0,100px)` in a 25px grid: the first track passes its limit (15 > 10) and the
 /// tracks overflow the container (30 > 25).
 pub fn witness_overshoot() -> Case {
     let mm = |hi: f32| single(Tr { min: Sf(0, b(0.0)), max: Sf(0, b(hi)) });
-    plain(25.0, 50.0, vec![mm(10.0), mm(100.0)], vec![single(px(50.0))], vec![Item { col: 1, row: 1, w: 0, h: 0 }])
+    plain(25.0, 50.0, vec![mm(10.0), mm(100.0)], vec![single(px(50.0))], vec![Item::plain(1, 1, 0, 0)])
+}
+
+/// Witness (c): the same THRESHOLD leak inside step 11.5.  `minmax(min-content, 50px) minmax(10px, 10.008px) 100px`, gap 5,
+/// in a 100px grid (no free space: 11.6 does nothing), one item of width 200 spanning the three columns.  When its
+/// min-content contribution is distributed the only affected track (the first) is at its limit, no affected track has an
+/// intrinsic max => "distribute beyond limits" selects EVERY spanned track (`filter = |_| true`), the second track has
+/// 0.008 of head-room, so every spanned track -- the fixed 100px one and both gutters -- is raised by 0.008.
+pub fn witness_c() -> Case {
+    let mut c = plain(
+        100.0,
+        50.0,
+        vec![
+            single(Tr { min: Sf(6, 0), max: Sf(0, b(50.0)) }),
+            single(Tr { min: Sf(0, b(10.0)), max: Sf(0, b(10.008)) }),
+            single(px(100.0)),
+        ],
+        vec![single(px(50.0))],
+        vec![Item { kind: 0, col: 1, cspan: 3, row: 1, rspan: 1, w: b(200.0), h: b(10.0), margin: [0; 4], ov: [0; 2] }],
+    );
+    c.gap = [(0, b(5.0)), (0, 0)];
+    c
 }
 
 /// Fixed corpus evaluated before the random K cases (witnesses of the refuted statements, regression shapes).
 pub fn corpus() -> Vec<Case> {
     let rep = |kind: u64, count: u64, tracks: Vec<Tr>| Entry { kind, count, tracks };
-    let mut v = vec![witness_a(), witness_b(), witness_b2(), witness_overshoot()];
+    let mut v = vec![witness_a(), witness_b(), witness_b2(), witness_overshoot(), witness_c()];
     // the repaired mixed-repeat count: repeat(2, 10px 20px) repeat(auto-fill | auto-fit, 30px) at 100px
     for kind in [2, 3] {
         v.push(plain(
@@ -539,22 +799,22 @@ pub fn corpus() -> Vec<Case> {
             100.0,
             vec![rep(1, 2, vec![px(10.0), px(20.0)]), rep(kind, 0, vec![px(30.0)])],
             vec![rep(kind, 0, vec![px(30.0)]), single(px(5.0))],
-            vec![Item { col: 5, row: 2, w: b(5.0), h: b(5.0) }],
+            vec![Item::plain(5, 2, b(5.0), b(5.0))],
         ));
     }
     // three unequal fr factors, one content-floored track, a gap
     let fr = |v: f32| single(Tr { min: Sf(5, 0), max: Sf(2, b(v)) });
-    let mut c = plain(300.0, 90.0, vec![fr(1.0), fr(2.0), fr(0.5), single(px(20.0))], vec![fr(1.0), fr(1.0)], vec![Item { col: 3, row: 1, w: b(120.0), h: b(70.0) }]);
+    let mut c = plain(300.0, 90.0, vec![fr(1.0), fr(2.0), fr(0.5), single(px(20.0))], vec![fr(1.0), fr(1.0)], vec![Item::plain(3, 1, b(120.0), b(70.0))]);
     c.gap = [(0, b(7.5)), (1, b(0.1))];
     v.push(c);
     // exact ties in find_size_of_fr (factor * fr size == base size): `minmax(60px,1fr) 1fr minmax(100px,1fr)` at 180px
     // (first fr size 60 ties with the first track) and `minmax(50px,1fr) 1fr` at 100px
     let mfr = |lo: f32| single(Tr { min: Sf(0, b(lo)), max: Sf(2, b(1.0)) });
-    v.push(plain(180.0, 40.0, vec![mfr(60.0), fr(1.0), mfr(100.0)], vec![single(px(40.0))], vec![Item { col: 2, row: 1, w: b(5.0), h: b(5.0) }]));
-    v.push(plain(100.0, 40.0, vec![mfr(50.0), fr(1.0)], vec![single(px(40.0))], vec![Item { col: 1, row: 1, w: b(5.0), h: b(5.0) }]));
+    v.push(plain(180.0, 40.0, vec![mfr(60.0), fr(1.0), mfr(100.0)], vec![single(px(40.0))], vec![Item::plain(2, 1, b(5.0), b(5.0))]));
+    v.push(plain(100.0, 40.0, vec![mfr(50.0), fr(1.0)], vec![single(px(40.0))], vec![Item::plain(1, 1, b(5.0), b(5.0))]));
     // a 0fr track with a positive base size forces a second iteration of the loop
     let zfr = single(Tr { min: Sf(0, b(30.0)), max: Sf(2, b(0.0)) });
-    v.push(plain(200.0, 40.0, vec![zfr, fr(1.0), fr(3.0)], vec![single(px(40.0))], vec![Item { col: 3, row: 1, w: b(5.0), h: b(5.0) }]));
+    v.push(plain(200.0, 40.0, vec![zfr, fr(1.0), fr(3.0)], vec![single(px(40.0))], vec![Item::plain(3, 1, b(5.0), b(5.0))]));
     v
 }
 
@@ -712,9 +972,22 @@ pub fn check_axis(a: &AxisIn, checked: &mut [u64; 5]) -> Vec<Verdict> {
     // a fixed track may be raised by at most THRESHOLD per iteration of distribute_space_up_to_limits; the
     // iterations of one call are bounded by the growable tracks + 1, the calls by 1 (maximise) + 4 per spanning item
     let known_b_bound = THRESHOLD as f64 * ((growable + 1) * (1 + 4 * spanning)) as f64 * 1.0001;
-    let mut dev_known = |what: String, got: f32, want: f32, out: &mut Vec<Verdict>, clause: &'static str| {
+    // class `intrinsic-beyond-limits-leak` (step 11.5): the track / gutter lies inside the span of an item spanning >= 2
+    // tracks whose span contains a track with an intrinsic min sizing function (auto | min-content | max-content, or a
+    // percentage under an indefinite size): only then can "distribute beyond limits" run with `filter = |_| true`
+    let intrinsic_min = |k: usize| {
+        let m = all[k].0.min.0;
+        !collapsed(k) && (m == 5 || m == 6 || m == 7 || (m == 1 && a.inner.is_none()))
+    };
+    // tracks lo..=hi (0-based) all inside one such item's span (a gutter between tracks i-1 and i: lo = i-1, hi = i)
+    let covered = |lo: usize, hi: usize| {
+        a.spans.iter().any(|(s, e)| e - s >= 2 && s - 1 <= lo && hi + 2 <= *e && (s - 1..e - 1).any(|k| intrinsic_min(k)))
+    };
+    let mut dev_known = |what: String, cov: bool, got: f32, want: f32, out: &mut Vec<Verdict>, clause: &'static str| {
         let d = got as f64 - want as f64;
-        if growable > 0 && d > 0.0 && d <= known_b_bound {
+        if growable > 0 && d > 0.0 && d <= known_b_bound && cov {
+            out.push(Verdict::Known("intrinsic-beyond-limits-leak", format!("{}: {} is {} instead of {} (+{:.6}; inside the span of an item crossing an intrinsic-min track, {} growable tracks)", a.name, what, got, want, d, growable)));
+        } else if growable > 0 && d > 0.0 && d <= known_b_bound {
             out.push(Verdict::Known("threshold-overshoot", format!("{}: {} is {} instead of {} (+{:.6}, {} growable tracks)", a.name, what, got, want, d, growable)));
         } else {
             out.push(Verdict::Fail(clause, format!("{}: {} is {} instead of {}", a.name, what, got, want)));
@@ -728,7 +1001,7 @@ pub fn check_axis(a: &AxisIn, checked: &mut [u64; 5]) -> Vec<Verdict> {
         if let Some(l) = all[k].0.fixed_px() {
             checked[1] += 1;
             if info.sizes[k].to_bits() != l.to_bits() && !(info.sizes[k] == l) {
-                dev_known(format!("fixed track {}", k), info.sizes[k], l, &mut out, "fixed");
+                dev_known(format!("fixed track {}", k), covered(k, k), info.sizes[k], l, &mut out, "fixed");
             }
         }
     }
@@ -736,7 +1009,7 @@ pub fn check_axis(a: &AxisIn, checked: &mut [u64; 5]) -> Vec<Verdict> {
     for (what, g) in [("first", info.gutters[0]), ("last", info.gutters[n])] {
         checked[3] += 1;
         if g != 0.0 {
-            dev_known(format!("{} outer gutter", what), g, 0.0, &mut out, "outer");
+            dev_known(format!("{} outer gutter", what), false, g, 0.0, &mut out, "outer");
         }
     }
     let gapv = match (a.gap.0, a.inner) {
@@ -753,7 +1026,7 @@ pub fn check_axis(a: &AxisIn, checked: &mut [u64; 5]) -> Vec<Verdict> {
             // the content box from the Layout, which may differ in the last place
             let same = info.gutters[i] == want || (a.gap.0 == 1 && (info.gutters[i] - want).abs() <= (want.abs() + f32::from_bits(a.gap.1).abs() * a.pct_scale) * 8.0 * f32::EPSILON);
             if !same {
-                dev_known(format!("gutter {}", i), info.gutters[i], want, &mut out, "gutter");
+                dev_known(format!("gutter {}", i), covered(i - 1, i), info.gutters[i], want, &mut out, "gutter");
             }
         }
     }
@@ -1042,6 +1315,18 @@ fn report(idx: i64, vs: &[Verdict]) -> (u64, u64) {
     (f, k)
 }
 
+/// The K cases the oracle evaluates before the broad generator: corpus, stage-1 class, stage-2 class.
+fn oracle_kcases(seed: u64, n: u64) -> Vec<Case> {
+    let mut rng = Rng::new(seed ^ 0xC09);
+    let mut rng2 = Rng::new(seed ^ 0x2C09);
+    let mut v = corpus();
+    v.extend((0..n / 4).map(|_| gen_k(&mut rng)));
+    v.extend((0..n / 4).map(|_| gen_k2(&mut rng2)));
+    let mut rng3 = Rng::new(seed ^ 0x3C09);
+    v.extend((0..n / 8).map(|_| gen_k3(&mut rng3)));
+    v
+}
+
 pub fn main(args: &[String]) {
     if args[0] == "oracle" {
         // panics are caught per case; remember where they came from
@@ -1057,9 +1342,20 @@ pub fn main(args: &[String]) {
             for c in corpus() {
                 print_case(&c);
             }
+            // one third stage-1 class (also evaluated by the stage-1 runner), two thirds stage-2 class
             let mut rng = Rng::new(seed ^ 0xC09);
-            for _ in 0..n {
+            for _ in 0..n / 3 {
                 print_case(&gen_k(&mut rng));
+            }
+            // stage 2: fixed-size leaves, and (second half) "text" leaves in rigid rows
+            let mut rng = Rng::new(seed ^ 0x2C09);
+            let n2 = n - n / 3;
+            for _ in 0..n2 / 2 {
+                print_case(&gen_k2(&mut rng));
+            }
+            let mut rng = Rng::new(seed ^ 0x3C09);
+            for _ in 0..n2 - n2 / 2 {
+                print_case(&gen_k3(&mut rng));
             }
         }
         "one" => {
@@ -1076,14 +1372,14 @@ pub fn main(args: &[String]) {
             let mut checked = [0u64; 5];
             let (mut fails, mut knowns, mut panics) = (0, 0, 0);
             // the K corpus and random K cases are oracle inputs too (fixed leaves on explicit lines)
-            let mut rng = Rng::new(seed ^ 0xC09);
-            let kcases: Vec<Case> = corpus().into_iter().chain((0..n / 4).map(|_| gen_k(&mut rng))).collect();
+            let kcases = oracle_kcases(seed, n);
             for (i, c) in kcases.iter().enumerate() {
                 let spec = c.spec();
+                let av = c.avail();
                 start_line(-(i as i64) - 1);
                 match std::panic::catch_unwind(|| {
                     let mut ch = [0u64; 5];
-                    (oracle_on(&spec, Size::MAX_CONTENT, &mut ch), ch)
+                    (oracle_on(&spec, av, &mut ch), ch)
                 }) {
                     Ok((vs, ch)) => {
                         for j in 0..5 {
@@ -1128,12 +1424,11 @@ pub fn main(args: &[String]) {
             let seed: u64 = args[1].parse().unwrap();
             let idx: i64 = args[2].parse().unwrap();
             let (spec, a) = if idx < 0 {
-                let mut rng = Rng::new(seed ^ 0xC09);
                 let n: u64 = args.get(3).map(|x| x.parse().unwrap()).unwrap_or(0);
-                let kcases: Vec<Case> = corpus().into_iter().chain((0..n / 4).map(|_| gen_k(&mut rng))).collect();
+                let kcases = oracle_kcases(seed, n);
                 let c = &kcases[(-idx - 1) as usize];
                 println!("C {}", c.encode().iter().map(|x| x.to_string()).collect::<Vec<_>>().join(" "));
-                (c.spec(), Size::MAX_CONTENT)
+                (c.spec(), c.avail())
             } else {
                 gen_oracle(seed, idx as u64)
             };
@@ -1171,11 +1466,11 @@ pub fn main(args: &[String]) {
             println!("PROBE autofit-empty-axis {:?}", r.map_err(|e| e.downcast_ref::<String>().cloned().unwrap_or_default()));
         }
         "witness" => {
-            for (name, c) in [("a", witness_a()), ("b", witness_b()), ("b2", witness_b2()), ("overshoot", witness_overshoot())] {
-                let r = run_spec(&c.spec(), Size::MAX_CONTENT).unwrap();
+            for (name, c) in [("a", witness_a()), ("b", witness_b()), ("b2", witness_b2()), ("overshoot", witness_overshoot()), ("c", witness_c())] {
+                let r = run_spec(&c.spec(), c.avail()).unwrap();
                 println!("WITNESS {} sizes={:?} gutters={:?} container={}", name, r.info.columns.sizes, r.info.columns.gutters, r.root.size.width);
                 let mut ch = [0u64; 5];
-                report(0, &oracle_on(&c.spec(), Size::MAX_CONTENT, &mut ch));
+                report(0, &oracle_on(&c.spec(), c.avail(), &mut ch));
             }
         }
         _ => std::process::exit(2),
